@@ -12,16 +12,15 @@ ASSUMPTIONS = [
     "shared Parameter objects are excluded by design",
 ]
 BOUNDS = {
-    "quick": "parents of 2..4 modes with 0/1 earlier heralded 3-mode sub-circuit at any position; argument circuits of 4 kinds (plain 2/3-mode, heralded, containing a group); any insertion mode 0..3, both group flags, used once or twice; 8 construction operations with modes in -1..5 and values from {-0.5,0,0.3,1,1.5}",
-    "thorough": "same with longer budgets plus emulator runs (Simulator, Sampler, QuickSampler, Analyzer)",
+    "quick": "parents of 2..4 modes with 0/1 earlier heralded 3-mode sub-circuit at any position; argument circuits of 4 kinds (plain 2/3-mode, heralded, containing a group); any insertion mode 0..3, both group flags, used once or twice; six consumers (Simulator, Sampler incl. all sampling calls, QuickSampler, Analyzer, Reck().map with the default and a noisy error model) on 3/4-mode circuits with a parameter, optional loss, optional heralded sub-circuit and a herald on any mode (in = out or crossed, 0/1 photons); 8 construction operations with modes in -1..5 and values from {-0.5,0,0.3,1,1.5}",
+    "thorough": "same with longer budgets",
 }
-OUTSIDE = "sizes beyond the bounds; Reck().map, Display, tomography and the qiskit converter as callers (their argument preservation is asserted inside C14, C19, C15, C12 harnesses where built)"
+OUTSIDE = "sizes beyond the bounds; Display, tomography and the qiskit converter as callers (their argument preservation is asserted inside C14, C19, C15, C12 harnesses where built)"
 STUBS = []
 
 
 def xh_conditions(tier):
     t = 240 if tier == "quick" else 480
     names = [f"_add_keeps_argument_k{k}_{w}" for k in range(4) for w in ("plain", "anc")] + ["_later_edits_keep_parent", "_rej_bs_modes", "_rej_bs_values", "_rej_ps_loss", "_rej_swaps_pair", "_rej_swaps_incomplete", "_rej_barrier", "_rej_herald_first", "_rej_herald_second", "_rej_add", "_copy_is_independent", "_sum_keeps_operands"]
-    if tier != "quick":
-        names.append("_emulators_keep_circuit")
+    names += [f"_consumer_{k}" for k in ("simulator", "sampler", "quick_sampler", "analyzer", "reck", "reck_noisy")]
     return [dict(name=f"args.{c}", file="xh/c08_args.py", func=c, timeout=t, prop="C08") for c in names]
